@@ -278,7 +278,11 @@ class Scenario(object):
         self.inner = make_inner(cfg)
         gate = cfg.get('gate_store', False)
         self.store = GStore(self.inner, c, gate, cfg.get('copy', cfg.get('backend') == 'gdict'), announce=cfg.get('announce', False))
-        self.relay = GRelay(c)
+        fr = list(cfg.get('fast_relay') or [])
+        if fr:
+            self.relay = GRelay(c, gate=False, script=lambda sid, pos, attempts: fr.pop(0) if fr else 'ok')
+        else:
+            self.relay = GRelay(c)
         bo = cfg.get('backoff', [0, None])
 
         def backoff(env, attempts):
@@ -301,6 +305,9 @@ class Scenario(object):
         self.bounces = {}
         self.q = Queue(self.store, self.relay, backoff=backoff, bounce_factory=factory,
                        store_pool=cfg.get('store_pool'), relay_pool=cfg.get('relay_pool'))
+        if cfg.get('split'):
+            from slimta.policy.split import RecipientSplit
+            self.q.add_policy(RecipientSplit())
         real_enqueue = self.q.enqueue
 
         def enqueue(env):
@@ -547,3 +554,25 @@ def random_walks(cfg, make_inner, nwalks, max_depth, rnd, drain_outcome=None, on
         ev, taken = sc.run(chooser, drain_outcome=drain_outcome)
         on_trace(ev, taken)
     return nwalks
+
+
+def run_plan(cfg, make_inner, plan, on_trace=None):
+    """plan: list of wanted decisions by kind: 'enq', 'relay:<outcome>', 'adv', 'flush', 'announce', or a store op name
+    (release the first parked call of that name).  Stops at the first step that is not on offer, then drains."""
+    sc = Scenario(cfg, make_inner)
+    it = iter(plan)
+
+    def chooser(step, opts):
+        want = next(it, None)
+        if want is None:
+            return None
+        for i, o in enumerate(opts):
+            if o[0] == 'rel' and sc.ctl.parked[o[1]]['info'][0] == want:
+                return i
+            if o[0] == 'relay' and want == 'relay:' + o[2]:
+                return i
+            if o[0] in ('enq', 'adv', 'flush', 'announce') and o[0] == want:
+                return i
+        return None
+    ev, taken = sc.run(chooser)
+    on_trace(ev, taken)
